@@ -859,6 +859,20 @@ func GenHistory(s *Stream, o *GenOpts) *History {
 		if o.IgnorableGap > 0 && s.Chance(1, o.IgnorableGap) && k != uIgnorable {
 			b.addUnit(uIgnorable)
 		}
+		if o.TableIDReuse && s.Chance(1, 4) {
+			// the table keeps its id, name, column count, column names and
+			// signedness, but later table maps announce other types/metadata:
+			// rows must be decoded with the most recent map for the id
+			t := h.Tables[s.N(len(h.Tables))]
+			for ci := range t.Cols {
+				if s.Chance(1, 2) && t.Cols[ci].Kind != kJSON {
+					old := t.Cols[ci]
+					nc := genColDef(s, ci, &o.Prof)
+					nc.Name, nc.Unsigned = old.Name, old.Unsigned
+					t.Cols[ci] = nc
+				}
+			}
+		}
 		b.addUnit(k)
 	}
 	return h
